@@ -2,5 +2,6 @@
 # seed_run.sh <patch.diff> <PROP>...: apply a seeded change to /repo, run the checks, undo it
 PATCH=$1; shift
 cd /repo && git apply $PATCH || { echo "PATCH-DOES-NOT-APPLY"; exit 3; }
+export VERIF_EVIDENCE_DIR=/verif/.work/seed_evidence
 for p in "$@"; do ( cd /verif && bin/check $p --no-canary 2>&1 | grep -v "^$" | tail -6; echo "   -> exit=${PIPESTATUS[0]}" ); done
 cd /repo && git checkout -q -- . && git clean -fdq src
